@@ -304,7 +304,29 @@ var c08ConstShapes = []string{"return %s %s %s;", "if (%s %s %s) { return 1; } r
 
 // built-in functions called with odd constant arguments (a Prepare-time
 // evaluation of such calls would run them outside any recover)
-var c08Builtins = []string{"between", "float", "getenv", "int", "join", "keys", "len", "lower", "match", "max", "min", "panic", "print", "printf", "replace", "reverse", "sort", "split", "sprintf", "string", "trim", "type", "upper", "hour", "minute", "seconds", "day", "month", "year", "weekday"}
+// c08Builtins: the built-in functions the checks call.  The list below is
+// what the pinned tree has; whatever else the library under test registers
+// (found through a generated accessor) is appended, so that a built-in added
+// by a change is exercised like the others.  now/time are left to the
+// tables of C08 and C09 only (C19 exempts them).
+var c08Builtins = func() []string {
+	known := c08KnownBuiltins
+	have := map[string]bool{"now": true, "time": true}
+	for _, k := range known {
+		have[k] = true
+	}
+	if names, ok := evalfilter.New("return 1;").VerifFunctionNames(); ok {
+		for _, n := range names {
+			if !have[n] {
+				known = append(known, n)
+				have[n] = true
+			}
+		}
+	}
+	return known
+}()
+
+var c08KnownBuiltins = []string{"between", "float", "getenv", "int", "join", "keys", "len", "lower", "match", "max", "min", "panic", "print", "printf", "replace", "reverse", "sort", "split", "sprintf", "string", "trim", "type", "upper", "hour", "minute", "seconds", "day", "month", "year", "weekday"}
 var c08BuiltinArgs = []string{"", "1", `"s"`, `""`, "[]", `[1, "a", 2.5, [1]]`, `{"k": 1}`, "true", "/a(/", "-9223372036854775807", "99999999999999999", "1.5", `"%d %s %v %q %c %x %5.2f %*d %!"`, `"a", ""`, `"", ""`, `[1, 2], 3`, `1, 2, 3, 4`, `"%s"`, `"%d", "x"`, `[[], [1]], ","`, `"a,b", ",", 3`, "x", "1, x"}
 
 // scripts that build a deeply nested value at run time and then print it
